@@ -104,6 +104,20 @@ pub fn c06(out: &mut Vec<String>, rng: &mut Rng, tier: &str) {
             u.stats_a().sample_std_dev().enc(), u.stats_b().sample_std_dev().enc()
         ));
     }
+    // 4a. more than 100 000 observations in total but a small effective dof
+    for (na, nb) in [(100_001usize, 3usize), (4, 100_050)] {
+        let xs: Vec<f64> = (0..na).map(|_| if na > 10 { 10.0 + (rng.unit() - 0.5) * 0.01 } else { (rng.unit() - 0.5) * 100.0 }).collect();
+        let ys: Vec<f64> = (0..nb).map(|_| if nb > 10 { 10.0 + (rng.unit() - 0.5) * 0.01 } else { (rng.unit() - 0.5) * 100.0 }).collect();
+        let conf = conf_of(na as u64, 0.95);
+        let u = Unpaired::<f64>::from_iter(&xs, &ys).unwrap();
+        out.push(format!(
+            "C06 ucrit f {} {} {} => {} | {} {} {} {}",
+            enc_conf(&conf), enc_list(&xs), enc_list(&ys),
+            guarded(|| enc_cires(&u.ci_mean(conf))),
+            u.stats_a().sample_mean().enc(), u.stats_b().sample_mean().enc(),
+            u.stats_a().sample_std_dev().enc(), u.stats_b().sample_std_dev().enc()
+        ));
+    }
     // 4b. sweeps at a fixed confidence in which the effective dof moves slowly (consecutive calls
     // differ by a fraction of a degree of freedom): the answer must not depend on the call history
     for i in 0..(if tier == "thorough" { 40 } else { 8 }) {
